@@ -13,7 +13,9 @@ import random
 import re
 import types
 
+import sys
 from . import common, scenarios, solverfam as sf
+sys.path.insert(0, os.path.join(common.ROOT, 'tools'))
 from .common import Check
 
 ADVERSARIAL = ['(', ')', '((', ')(', 'a(b', 'a)b', '\\', 'a\\', '\\(', '\\)', '\\\\)', "O'Neil (Jr.)", '"q"', 'x\\ny', 'tab\there', '100% (net)',
@@ -281,6 +283,58 @@ def run(tier, seed):
     except PF.PDFInvalidChoiceValue:
         pass
     ck.count(('checks', 'too-long'), nontrivial=True)
+    # every shipped text mapping that declares a length limit: a longer value raises, a fitting one passes unchanged (whatever value function it has)
+    import gen_forms as _gf
+    import pdf_reader as _pr
+    n_limits = 0
+    seq_checked = 0
+    for y in common.YEARS:
+        for cls in H['forms'].available_forms[y]:
+            try:
+                obj = cls(instance=_gf.instances_of(cls)[0])
+                pfs = obj.pdf_fields()
+            except Exception:  # noqa
+                continue
+            for pf_ in pfs:
+                ml = getattr(pf_, 'max_length', None)
+                if not isinstance(pf_, PF.TextPDFField) or not ml:
+                    continue
+                n_limits += 1
+                long_v = 'X' * (ml + 7)
+                try:
+                    r = pf_.value(long_v, Fld())
+                    ck.violation('C19:%d:%s:%s:too-long-accepted' % (y, cls.form_name, pf_.pdf_field_name),
+                                 'ty%d %s box %s (limit %d): a %d-character value is not refused but written as %r' % (
+                                     y, cls.form_name, pf_.pdf_field_name, ml, len(long_v), r),
+                                 {'kind': 'failing-input', 'year': y, 'form': cls.form_name, 'box': pf_.pdf_field_name, 'line': pf_.field_name,
+                                  'max_length': ml, 'value': long_v, 'written': r}, found=True)
+                except PF.PDFValueTooLong:
+                    pass
+                except Exception:  # noqa  (a value function that needs a real line object)
+                    pass
+            # the order in which forms are attached: the sequence number the class declares is the one printed on the IRS template
+            if obj.pdf_file() and str(obj.pdf_file()).endswith('.pdf'):
+                try:
+                    data = open(obj.pdf_file(), 'rb').read()
+                except Exception:  # noqa
+                    continue
+                printed = None
+                for num, hdr, body in _pr._streams(data):
+                    m_ = re.search(rb'Attachment\s*(?:</[^>]+>\s*<[^>]+>\s*)*Sequence\s*No\.?\s*(?:</[^>]+>\s*<[^>]+>\s*)*([0-9]+[A-Z]?)', body)
+                    if m_:
+                        printed = m_.group(1).decode()
+                        break
+                if printed is not None and printed.isdigit():
+                    seq_checked += 1
+                    ck.count((y, cls.form_name, 'sequence'), nontrivial=True)
+                    if int(printed) != int(getattr(cls, 'sequence_no', -1)):
+                        ck.violation('C19:%d:%s:sequence-number' % (y, cls.form_name),
+                                     'ty%d %s declares attachment sequence number %r; the IRS template prints %s (forms are attached in this order)' % (
+                                         y, cls.form_name, getattr(cls, 'sequence_no', None), printed),
+                                     {'kind': 'failing-input', 'year': y, 'form': cls.form_name, 'declared': getattr(cls, 'sequence_no', None), 'template': printed,
+                                      'how': 'any return that files this form together with one whose number lies between the two values is attached out of order'}, found=True)
+    ck.cov['length_limited_text_boxes'] = n_limits
+    ck.cov['sequence_numbers_compared_with_templates'] = seq_checked
     ck.sample({'data': datasets[3], 'fdf_body': bodies[3][:200]})
     return sf.finish_family(ck, 'C19')
 
